@@ -218,4 +218,28 @@ PROPS = {
                    "and reports any other failure as a violation.",
         explanation="ghost-origin contract of route_answer / send_answer.",
     ),
+    "C10": dict(
+        specs=["packer", "avp", "avp_types", "avp_grouped", "base", "node_model", "peer", "helpers", "c20", "family", "node"],
+        ground=[], replay=replay.generic,
+        trusted_base=["threading.Event.wait as an environment step (other threads may deliver an answer meanwhile)"],
+        assumptions=COMMON_ASSUME + [
+            "NOT DECIDED: blocking/timeout behaviour across threads, arrival order of answers, and that no two in-flight "
+            "requests of one application share a hop-by-hop id across connections (the waiter table is keyed by it alone)",
+            "the peer selection callback returns one of the offered peers (behavioural contract)",
+            "lemma filter-membership (x in [y for y in ys if c(y)] <=> x in ys and c(x)) is instantiated for the witnesses; it "
+            "is the standard induction over the list and is assumed, not re-proved, here",
+            "class invariant SequenceGenerator (proved under C16)"],
+        level_text="Deductive proof that Node.route_request returns the connection of a peer q that is in the route list "
+                   "configured for (application, destination realm) - the realm's default list when the application has none - "
+                   "and whose connection is READY/READY_WAITING_DWA, q being the selection callback's choice among exactly the "
+                   "eligible peers when several qualify; NotRoutable is raised only if an arbitrary witness peer is not eligible "
+                   "(i.e. only when none is) and then nothing is modified (frame); the outgoing hop-by-hop id is non-zero and, "
+                   "when assigned by the node, the generator's successor; the (hbh:e2e -> application) correlation is recorded; "
+                   "_receive_app_answer hands an answer only to the recorded application; receive_answer gives it to the "
+                   "registered waiter or else to this application's own unexpected-answer hook; send_request removes its "
+                   "waiter on every exit.",
+        level_note="Sequential contracts with universally quantified witness peer; existential witness (chosen peer) named "
+                   "from the function's own local at return.",
+        explanation="eligibility postcondition of route_request + correlation contracts.",
+    ),
 }
